@@ -45,6 +45,8 @@ pub struct LockMon {
 
 thread_local! {
     pub static LOCK_MON: RefCell<LockMon> = RefCell::new(LockMon::default());
+    /// (acquisitions, exclusive acquisitions, nested) since the last reset; not cleared by lock_mon_take
+    pub static LOCK_STATS: Cell<(u64, u64, u64)> = Cell::new((0, 0, 0));
     static RELEASE_HOOK: RefCell<Option<Box<dyn FnMut()>>> = RefCell::new(None);
     static IN_HOOK: Cell<bool> = Cell::new(false);
 }
@@ -76,6 +78,10 @@ impl DepthMutex {
             if d > 0 {
                 m.nested.push(format!("{} acquisition requested while lock already held (depth {})", kind, d));
             }
+        });
+        LOCK_STATS.with(|s| {
+            let (a, b, c) = s.get();
+            s.set((a + 1, b + (kind == "mut") as u64, c + (d > 0) as u64));
         });
         self.depth.set(d + 1);
     }
